@@ -238,6 +238,9 @@ def run(v, tier, rng):
     _run_replay(v, tier, rng)
     expireq_part(v, tier, rng)
     trace_part(v, tier, rng)
+    # the device operation: cancelled in every state of its forwarding paths it completes exactly once (dev/DevLife.tla)
+    from checks.c13 import devlife_part
+    devlife_part(v, tier, rng)
     # transport operations (pipe send / receive of the inproc transport) matched, cancelled and closed: one completion each
     from checks.inproc import run_inproc
     run_inproc(v, tier, pred=lambda sig, text: any(k in sig.rsplit(":", 1)[-1] for k in ("done", "pend")) or ":panic" in sig or ":asan" in sig or "exit-" in sig,
